@@ -413,10 +413,10 @@ def mapMOpt {α β : Type} (f : α → Option β) : Option α → Option (Option
 
 /-- the modelled part of `dukebox::remap::remap_class` with an `ARemapperAsBRemapper` -/
 def remapClass (f : JStr → JStr) (c : JClass) : Option JClass :=
-  match c.methods.mapM (fun (m : JStr × JStr) => (MapDesc.mapDesc f m.2).map (fun d => (m.1, d))) with
+  match mapOpt (fun (m : JStr × JStr) => (MapDesc.mapDesc f m.2).map (fun d => (m.1, d))) c.methods with
   | none => none
   | some ms =>
-    match mapMOpt (fun ics => ics.mapM (remapInner f)) c.innerClasses with
+    match mapMOpt (fun ics => mapOpt (remapInner f) ics) c.innerClasses with
     | none => none
     | some ics =>
       match mapMOpt (remapEncl f) c.enclosingMethod with
